@@ -302,6 +302,6 @@ func run(rp *explore.Report, tier string) {
 }
 
 func init() {
-	reg.Register(&reg.Harness{Property: "C20", Name: "c20/limiter", Level: "model_checking", Run: run, Item: parseItem,
+	reg.Register(&reg.Harness{Property: "C20", Name: "c20/limiter", Level: "model_checking", Bounds: [2]int{3, 4}, Run: run, Item: parseItem,
 		Rule: "items = limiter size x context mode of thread 0 x thread scripts over {W,y,n,r,R,D,H,S}; every interleaving within the deviation bound is executed on the real concurrencylimiter; non-trivial = executions in which at least one counted holder entered the critical section"})
 }
